@@ -16,14 +16,14 @@ CHECKS = {
     "C02": dict(
         category="model_checking",
         technique="deviation-bounded exploration of the real fuzz loop plus bounded-exhaustive (tree, constraint) enumeration through the evaluator's acceptance gate, emissions re-judged by a reference evaluator on rebuilt trees",
-        text="Every tree handed to solution_callback in every loop execution within the deviation bound (seven collision specs: computed repetitions, equality repair, nested repetitions, recursion with raising operands, bits/bytes, regex/optional, generators) is rebuilt from a plain snapshot and judged by RefConstraint plus a recount of computed repetitions; additionally every enumerated tree x constraint program of the C07 family goes through Evaluator.evaluate_individual and whatever it yields must satisfy the reference; and every tree reachable through mutate / crossover / repair (all resolutions, depth 2, thorough 3) on the collision specs is offered to a fresh evaluator, and whatever it accepts is judged the same way.",
+        text="Every tree handed to solution_callback in every loop execution within the deviation bound (seven collision specs: computed repetitions, equality repair, nested repetitions, recursion with raising operands, bits/bytes, regex/optional, generators) is rebuilt from a plain snapshot and judged by RefConstraint plus a recount of computed repetitions; additionally every enumerated tree x constraint program of the C07 family goes through Evaluator.evaluate_individual and whatever it yields must satisfy the reference; and every tree reachable through mutate / crossover / repair (all resolutions, depth 2, thorough 3) on the collision specs is offered to a fresh evaluator, and whatever it accepts is judged the same way. Programs with a connective are also compiled in lazy mode (all programs in the thorough tier).",
         note="FANDANGO_RAISE_ALL_EXCEPTIONS is unset (production path). The raising-operand defect was repaired; the descendant-selector deviation is a recorded known finding.",
         design="4 C02",
     ),
     "C03": dict(
         category="model_checking",
         technique="exhaustive walk of a finite configuration lattice (h, r, declaration order) on the real evaluator and the public fuzz API",
-        text="Every configuration 0..12 x 0..12 (thorough 0..40 x 0..40) of h hard constraints and r computed repetitions in 3 declaration orders, with repetition counts 2 and 0 (zero iterations; h, r <= 6), plus one comparison constraint matching m = 1..32 (thorough 80) places of the witness next to 0/1/3 further constraints, plus the (h, r) question asked again of one spec object after an earlier search with extra constraints, is built as a real spec; an independently confirmed satisfying tree must be yielded by the real Evaluator.evaluate_individual on first sight, and for small h + r Fandango.fuzz(initial_population=[witness]) must report a solution.",
+        text="Every configuration 0..12 x 0..12 (thorough 0..40 x 0..40) of h hard constraints and r computed repetitions in 3 declaration orders, with repetition counts 2 and 0 (zero iterations; h, r <= 6), plus one comparison constraint matching m = 1..32 (thorough 80) places of the witness next to 0/1/3 further constraints, plus the (h, r) question asked again of one spec object after an earlier search with extra constraints, plus 108 constraint forms with their witnesses (any/all/exists/forall over m matches of which only the last or the first satisfies, connectives whose first operand fails, nested quantifiers; eager and lazy compilation; evaluator and API parse), is built as a real spec; an independently confirmed satisfying tree must be yielded by the real Evaluator.evaluate_individual on first sight, and for small h + r Fandango.fuzz(initial_population=[witness]) must report a solution.",
         note="The lattice is finite and walked completely; constraints are tautologies / fixed-count repetitions so the witness is known to satisfy them. Rounding defect repaired in /repo (fix commit, see known_findings.json).",
         design="4 C03",
     ),
@@ -65,7 +65,7 @@ CHECKS = {
     "C12": dict(
         category="model_checking",
         technique="explicit-state BFS over request histories on one spec object, differential oracle against a freshly built spec",
-        text="Breadth-first search over histories (depth 3 quick / 4 thorough) of parse, parse_forest, abandoned iteration, include_controlflow, prefix mode, another start symbol, API parse, fuzz-internal parses, requests that hand in a tree instead of a word, and mutation of handed-out trees, and leaf edits of handed-out trees, on six specs (ambiguous, generator, computed repetition, bit-level, bytes regex requested with str and bytes words, regex+constraint); states are de-duplicated on the forest-cache content plus aliasing of held trees; every request's observation must equal the same request on a fresh spec.",
+        text="Breadth-first search over histories (depth 3 quick / 4 thorough) of parse, parse_forest, abandoned iteration, include_controlflow, prefix mode, another start symbol, API parse, fuzz-internal parses, requests that hand in a tree instead of a word, and mutation of handed-out trees, leaf edits of handed-out trees and API searches with extra constraints, on seven specs (ambiguous, generator, parameterised generator, computed repetition, bit-level, bytes regex requested with str and bytes words, regex+constraint); observations include read-only marks and generator sources; states are de-duplicated on the forest-cache content plus aliasing of held trees; every request's observation must equal the same request on a fresh spec.",
         note="Canonical state ignores Repetition.iteration counters (observations compared modulo renaming of iteration ids). The truncated-forest-cache defect and the cache key that ignored the starter bit were repaired in /repo.",
         design="4 C12",
     ),
@@ -114,7 +114,7 @@ CHECKS = {
     "C16": dict(
         category="model_checking",
         technique="explicit-state reachability over trees under the search operators (all random resolutions) and deviation-bounded loop exploration on specs whose generator functions log every call",
-        text="On a spec with a constant, a random (through the random seam) and an argument-dependent generator whose functions log (name, arguments, value): every tree reachable through mutate/crossover/repair to depth 2 (thorough 3) and every tree in every loop execution within the deviation bound must carry, in each generator-owned node, a logged return value that equals the function of the argument values recorded in .sources; a generator whose value does not fit its rule must raise under every resolution. Further specs: a generator with two symbol arguments, and a no-argument generator next to an equality constraint.",
+        text="On a spec with a constant, a random (through the random seam) and an argument-dependent generator whose functions log (name, arguments, value): every tree reachable through mutate/crossover/repair to depth 2 (thorough 3) and every tree in every loop execution within the deviation bound must carry, in each generator-owned node, a logged return value that equals the function of the argument values recorded in .sources; a generator whose value does not fit its rule must raise under every resolution. Further specs: a generator with two symbol arguments, a no-argument generator next to an equality constraint, an equality between two nodes of one symbol one of which lies inside generator output; and API-parse results handed back as the initial population of a search with extra constraints on a constraint-free generator spec.",
         note="The read-only marking itself is not judged (mechanism, not property). One deviation (equality repair overwrites a generated field) is a recorded known finding.",
         design="4 C16",
     ),
@@ -128,7 +128,7 @@ CHECKS = {
     "C18": dict(
         category="model_checking",
         technique="explicit-state enumeration of activity histories on other spec objects, each history in its own fresh process, differential oracle against the instance used alone",
-        text="All histories up to length 2 (thorough 3) over {fuzz / fuzz that finds its solutions at once / long stagnating fuzz / soft-goal evaluation / parse on spec A, construct / fuzz a third spec, unrelated parse and differently seeded fuzz on B} for spec pairs chosen so that A touches what B reads (stagnation raises the repetition cap, also in protocol mode; B has *, +, {n,}; shared start symbols and words; optimisation goals on both; the same text as plain literal in one spec and as regex in the other), with B constructed before or after the activity on the other objects; every history runs in a process forked from a parent that only imported fandango. B's seeded solution sequence and parse forest must equal those of B used alone; a fingerprint of fandango's module-level mutable state is recorded per state.",
+        text="All histories up to length 2 (thorough 3) over {fuzz / fuzz that finds its solutions at once / long stagnating fuzz / soft-goal evaluation / parse on spec A, construct / fuzz a third spec, unrelated parse and differently seeded fuzz on B} for spec pairs chosen so that A touches what B reads (stagnation raises the repetition cap, also in protocol mode; B has *, +, {n,}; shared start symbols and words; optimisation goals on both; the same text as plain literal in one spec and as regex in the other), with B constructed before or after the activity on the other objects; plus `fandango shell` sessions (session defaults x commands on another spec) whose last command must print what it prints without them; every history runs in a process forked from a parent that only imported fandango. B's seeded solution sequence and parse forest must equal those of B used alone; a fingerprint of fandango's module-level mutable state is recorded per state.",
         note="The repetition-cap leak was repaired in /repo.",
         design="4 C18",
     ),
@@ -142,7 +142,7 @@ CHECKS = {
     "C20": dict(
         category="model_checking",
         technique="stateless schedule exploration of the real protocol loop under a virtual clock and a controlled delivery scheduler (deviation-bounded around two base schedules), plus a free-running real-thread pass",
-        text="The unmodified _generate_io loop runs in-process against scripted external parties (five specs: ping-pong with alternatives and a constraint, optional/repeated exchanges, alternative reply types with an echo constraint, bytes, two peers) and peer behaviours (valid, wrong type, constraint-violating, truncated, glued/garbage tail, unsolicited early, one peer silent). At every lock-protected buffer access and every poll the explorer decides how many pending remote characters/bytes arrive first or whether the timeout expires; all schedules within deviation bound 2 (thorough 3) of 'everything arrives immediately' and of 'one unit per step' are executed. Oracle per execution: message history is a prefix of an interaction at every step, correct attribution, transmitted messages == recorded ones in order, accepted remote data == delivered data, every message satisfies type and constraints, misbehaving peers never yield a complete interaction.",
+        text="The unmodified _generate_io loop runs in-process against scripted external parties (nine specs: ping-pong with alternatives and a constraint, optional/repeated exchanges, alternative reply types with an echo constraint, bytes, two peers, one type from two senders, look-ahead, a thrice repeated exchange whose search runs dry, a reply that depends on the received message) and peer behaviours (valid, wrong type, constraint-violating, truncated, glued/garbage tail, unsolicited early, one peer silent). At every lock-protected buffer access and every poll the explorer decides how many pending remote characters/bytes arrive first, from which peer, or whether the timeout expires; all schedules within deviation bound 2 (thorough 3) of 'everything arrives immediately' and of 'one unit per step' are executed. Oracle per execution: message history is a prefix of an interaction at every step, correct attribution, transmitted messages == recorded ones in order, accepted remote data == delivered data, every message satisfies type and constraints, misbehaving peers never yield a complete interaction.",
         note="The fuzzer's own random decisions are fixed by random.seed(k) for a few k. Real threads only in the separate free-running pass (no scheduler). One consequence of the C19 forecasting defect is a recorded known finding.",
         design="4 C20",
     ),
